@@ -197,7 +197,7 @@ class Session:
             return "ok\tM\t%s\t%s" % (self.show_q(r.measurand), show_mag(r.uncertainty.magnitude))
         if isinstance(r, Level):
             self.ls.append(r)
-            return "ok\tL\t%s\t%d" % (show_mag(r.magnitude), self.lus.index(r.unit))
+            return "ok\tL\t%s\t%d" % (show_mag(r.magnitude), [i for i, x in enumerate(self.lus) if x is r.unit][0])
         if isinstance(r, Prefix):
             return "ok\tp" + self.show_pfx(r)
         if isinstance(r, tuple) and len(r) == 2 and all(isinstance(x, Unit) for x in r):
@@ -327,11 +327,10 @@ class Session:
             return approximately(a[0], a[1])
         if op == "lunit":
             lu = Logarithm(a[0], prefix=a[1])[a[2]]
-            if lu not in self.lus:
-                self.lus.append(lu)
-            else:
-                # keep indices aligned with the model, which always appends
-                self.lus.append(lu)
+            for i, x in enumerate(self.lus):
+                if x is lu:
+                    return RawLine("ok\tlu\t%d" % i)
+            self.lus.append(lu)
             return RawLine("ok\tlu\t%d" % (len(self.lus) - 1))
         if op == "lnew":
             return Level(a[0], self.lus[a[1]])
